@@ -1032,9 +1032,17 @@ func (ex *Exec) binop(st *State, op token.Token, a, b *Val, resT types.Type, pos
 		t = resT
 	}
 	switch op {
-	case token.EQL:
-		return ex.boolVal(ex.eqVal(a, b))
-	case token.NEQ:
+	case token.EQL, token.NEQ:
+		// comparing two interface values panics when both hold the same uncomparable dynamic type (slice, map, func)
+		if st != nil && a.Sh != nil && b.Sh != nil && a.Sh.Kind == "any" && b.Sh.Kind == "any" {
+			ex.eng.smt.declFun("uf_comparable", "(declare-fun uf_comparable (Int) Bool)")
+			other := fmt.Sprint(tagOther)
+			both := and(eq(a.kid("tag").S, other), eq(b.kid("tag").S, other), eq(a.kid("ty").S, b.kid("ty").S))
+			ex.safety(st, "interface-compare", pos, implies(both, "(uf_comparable "+a.kid("ty").S+")"))
+		}
+		if op == token.EQL {
+			return ex.boolVal(ex.eqVal(a, b))
+		}
 		return ex.boolVal(not(ex.eqVal(a, b)))
 	}
 	if !a.Sh.IsLeaf() || !b.Sh.IsLeaf() {
